@@ -10,6 +10,43 @@ for l in open(os.path.join(VERIF, "properties.jsonl")):
 
 # id -> (category, technique, text, note, design_ref)
 CLAIMED = {
+    "C16": ("proof",
+            "Lean 4 theorems (GF(256) field + Mathlib Lagrange uniqueness, Feistel inverse, RS1024 linearity and GF(2) rank "
+            "checks, text round trip, refusal logic; all inputs) + model/spec/implementation correspondence",
+            "Props/C16.lean proves about the model of slip39.py, for every HMAC with >= 4 output bytes and every Feistel round "
+            "function returning the requested length (SHA-256/PBKDF2 are parameters): the exp/log tables are the powers of 3 in "
+            "GF(2)[x]/(x^8+x^4+x^3+x+1) and table multiplication is the standard's carry-less multiplication (all 65 536 pairs, "
+            "kernel-evaluated), which with XOR forms a Mathlib Field; ShareSet.interpolate (log sums, 'log 0 = 0' trick) is the "
+            "value of Mathlib's Lagrange.interpolate and equals the executable SLIP-0039 Interpolation; split_secret (k >= 2) is "
+            "SplitSecret (k-2 random shares, digest share at 254, secret at 255) and all n shares lie on polynomials of degree < k; "
+            "ANY collection of >= k distinct shares recovers the secret (raw level and through the whole pipeline generate_shares "
+            "-> mnemonics -> parse -> ShareSet checks -> grouping -> interpolation -> digest -> decrypt, every 1 <= k <= n <= 16, "
+            "128/256-bit secrets, passphrase, exponent < 32, identifier < 2^15, random tape); the n mnemonics are pairwise "
+            "distinct (also for k = 1 after the fix); any share set with fewer shares than a threshold >= 2 is refused; whatever "
+            "recover_secret returns satisfies the digest equation; whatever ShareSet() accepts has one id / exponent / group "
+            "threshold / group count / length and no duplicate indices; decrypt(encrypt x) = x = encrypt(decrypt x) and _crypt "
+            "equals the standard's Feistel cipher; parse(mnemonic s) = s and parse accepts exactly the printed format; RS1024 "
+            "create => verify, embit's polymod with its ten constants equals the Reed-Solomon code (x-a)(x-a^2)(x-a^3) over "
+            "GF(1024), and two verifying sequences of <= 33 words that differ in at most 3 positions are equal (5 456 "
+            "kernel-evaluated GF(2) eliminations) - so every 1-3 word substitution of a 20- or 33-word share is rejected. "
+            "Tie to the repo each run: tables, polymod/checksum, interpolate, split_secret, recover_secret, _crypt, "
+            "Share.parse/mnemonic, generate_shares and recover_mnemonic are run on embit (randint injected from the seeded tape) "
+            "and on the native Lean model and executable spec; the property predicate is also evaluated directly on embit "
+            "(>= k subset must recover, < k subset must not return anything, n distinct shares, mixed sets / corrupted digest / "
+            "1-3 word substitutions / foreign customisation strings must be refused, accepted text must re-encode to itself), "
+            "exhaustive subsets for n <= 6, all single-word substitutions of sampled 20- and 33-word shares, official vectors "
+            "from tests/tests/test_slip39.py.",
+            "Only corresponded, not proved: the bit-level share layout of the standard vs embit's integer packing "
+            "(share.encode.spec / share.decode.spec ops; exponent >= 16 = extendable flag is not supported by embit and such "
+            "shares are refused), two-level group recovery (official vectors + harness-built group sets), BIP39 conversion of the "
+            "secret (C15), word <-> index lookup. The subset sweeps use a cheap stand-in for PBKDF2 patched into "
+            "embit.slip39.hashlib (theorems are generic in it); real PBKDF2-HMAC-SHA256 runs on fewer cases and the vectors; the "
+            "Lean reference HMAC/PBKDF2 is validated against hashlib by the same runs. 'Bad digest refused' is decision logic: a "
+            "random corruption passes the 4-byte digest with probability 2^-32; threshold 1 has no digest by design; a wrong "
+            "passphrase yields a different secret by design. Fixed defects: D23 (k = 1 returned one share), D37 (mnemonics with "
+            "more than 8 padding bits accepted), D38 (superfluous zero word for 160/320-bit shares). Trusted: Lean kernel + "
+            "propext/Quot.sound/Classical.choice, the harness, CPython/hashlib.",
+            "§5 C16"),
     "C07": ("proof",
             "Lean 4 theorems (strict-DER codec, canonical form, grinding loop, ECDSA / BIP340 correctness relative to an explicit "
             "group-law hypothesis, RFC 6979) + model/implementation correspondence under both secp256k1 backends",
